@@ -1,4 +1,5 @@
 import ShredModel.Drv.Plan
+import ShredModel.Drv.World
 /-!
 Line-protocol front end of the model. One request per line, one answer per line. The first
 word selects the sub-model; anything else goes to the builder / task model.
@@ -9,9 +10,13 @@ open Shred
 
 structure St where
   plan : Drv.Plan.St := {}
+  world : Drv.World.St := {}
 
 def step (st : St) (line : String) : St × String :=
   match line.trimAscii.toString.splitOn " " with
+  | "world" :: ws =>
+    let (s, o) := Drv.World.step st.world ws
+    ({ st with world := s }, o)
   | ws =>
     let (s, o) := Drv.Plan.step st.plan ws
     ({ st with plan := s }, o)
